@@ -491,6 +491,9 @@ Proof.
   unfold first_y in *. simpl in A, B. destruct (Qle_bool xa xb), (Qle_bool xb xa); lra.
 Qed.
 
+Lemma add_depth_ne v a b : a <> [] -> b <> [] -> add_depth v a b = add_depth_core v a b.
+Proof. destruct a; [congruence|]. destruct b; [congruence|]. reflexivity. Qed.
+
 Lemma add_depth_wf v a b : wf a -> wf b ->
   exists c, add_depth v a b = Some c /\ wf c /\ forall t, pl_eval c t == pl_eval a t + pl_eval b t.
 Proof.
@@ -498,7 +501,7 @@ Proof.
   destruct (wf_inv a Wa) as [xa [ya [ra [Ea [Ia [Ya La]]]]]].
   destruct (wf_inv b Wb) as [xb [yb [rb [Eb [Ib [Yb Lb]]]]]].
   assert (YS : ystart v a b == 0) by (apply ystart_wf; [destruct Wa as [_ [_ [H _]]]|destruct Wb as [_ [_ [H _]]]]; exact H).
-  unfold add_depth, sum_slopes. set (ys := ystart v a b) in *.
+  rewrite (add_depth_ne v a b (proj1 Wa) (proj1 Wb)). unfold add_depth_core, sum_slopes. set (ys := ystart v a b) in *.
   set (pa := pos_to_slope a). set (pb := pos_to_slope b).
   destruct (merge_some (length pa + length pb) pa pb 0 0 (le_n _)) as [s E]. rewrite E. simpl option_map.
   exists (slope_to_pos ys s). split; [reflexivity|].
